@@ -153,7 +153,7 @@ class Prog:
 
 TYPE_HELPER = ['TYPE zqt', '  a AS INTEGER', '  b AS STRING', 'END TYPE']
 SUB_HELPER = ['SUB zqs (a AS INTEGER)', 'END SUB']
-FUNC_HELPER = ['FUNCTION zqf% (a AS INTEGER)', '  zqf% = a', 'END FUNCTION']
+FUNC_HELPER = ['FUNCTION zqf% (zqp AS INTEGER)', '  zqf% = zqp', 'END FUNCTION']
 
 WRAPPERS = ['plain', 'colon', 'ifthen', 'ifelse', 'label']
 
